@@ -256,7 +256,10 @@ def _ob_referring_section(m1: int, m2: int, m3: int) -> bool:
                 "groups": [blk.create_group("g", "t"), blk.create_group("h", "t")],
                 "tags": [blk.create_tag("t", "t", [0.0]), blk.create_tag("u", "t", [0.0])],
                 "multi_tags": [blk.create_multi_tag("m", "t", positions=da)],
-                "sources": [blk.create_source("s", "t"), blk.create_source("r", "t")]}[rk]
+                "sources": None}[rk]
+        if objs is None:
+            top = blk.create_source("s", "t")
+            objs = [top, top.create_source("nested", "t")]      # a nested source can carry metadata too
         refs += objs
     sel = (m1, m2, m3)
     linked = {}
